@@ -92,7 +92,7 @@ def cases(tier):
                 out.append({'kind': 'preempt', 'pair': list(p), 'order': order, 'gran': g, 'part': part, 'nparts': nparts, 'stride': stride,
                             'npoints': npts})
         for part in range(6):
-            out.append({'kind': 'threads', 'pair': list(p), 'gran': 'call', 'bound2': tier != 'quick' and part == 0, 'part': part, 'nparts': 6})
+            out.append({'kind': 'threads', 'pair': list(p), 'gran': 'call', 'bound2': tier != 'quick', 'part': part, 'nparts': 6})
     if tier == 'quick':
         for part in range(6):
             out.append({'kind': 'threads', 'pair': list(PAIRS[1]), 'gran': 'call', 'bound2': False, 'part': part, 'nparts': 6})
@@ -420,7 +420,7 @@ def run_case(case):
         if case.get('bound2'):
             pX, _ = isolated(lambda: count_points(runs[x], events, maxdepth=2))
             pY, _ = isolated(lambda: count_points(runs[y], events, maxdepth=2))
-            for k1 in range(0, len(pX), max(1, len(pX) // 16)):
+            for k1 in list(range(0, len(pX), max(1, len(pX) // 16)))[case.get('part', 0)::case.get('nparts', 1)]:
                 for k2 in range(0, len(pY), max(1, len(pY) // 16)):
                     out, err = isolated(lambda: Baton(runs, {x: [k1], y: [k2]}, events, maxdepth=2).go(x))
                     res['n'] += 1
